@@ -14,7 +14,11 @@ RULE = ("C01-style generated programs (their own query/evidence statements remov
         "w(theta,P) has probability 1 and P equals the reference (conditional) probability of Goal.theta, which is "
         "also compared with ProbLog's own top-level inference on 'query(Goal). evidence(...)'; every instance with "
         "positive reference probability has an answer; inconsistent evidence <=> error. Non-trivial: >= 2 relevant "
-        "choices and 0 < P < 1 for some answer. Distinct = distinct (program, wrapper).")
+        "choices and 0 < P < 1 for some answer. Distinct = distinct (program, wrapper). Sub-check 'sequence': 2-4 "
+        "subqueries with ground goals in ONE grounding (wrappers w0(P), w1(P), .. queried in a drawn order with "
+        "repetitions, or one clause wb(P0,P1,..) whose body calls them one after the other), some with an evidence "
+        "list and some without; every value must be the reference probability of its own goal under its own evidence "
+        "list. Non-trivial there: >= 2 choices, a call with and a call without evidence, some 0 < P < 1.")
 ASSUMPTIONS = ["reference semantics for the expected value; top-level evidence statements are removed because the "
                "statement relates subquery/3 only to its own evidence list"]
 
@@ -144,6 +148,128 @@ def _cases(draw):
     return {"prog": prog, "goal": goal, "evidence": ev, "use3": use3}
 
 
+# ------------------------------------------------------------------------------------------------ several subqueries
+
+def check_seq(case):
+    """Several subquery calls in ONE grounding: wrappers w0(P), w1(P), ... (one subquery each, ground goals, with or
+    without an evidence list) queried in the given order, or one clause wb(P0,P1,..) :- subquery(..), subquery(..).
+    Every value must be the reference (conditional) probability of its own goal under its own evidence list: a
+    subquery must not see the evidence, queries or tables of the calls before it."""
+    prog = case["prog"]
+    feats = gp.features(prog)
+    base = [s for s in prog if s[0] not in ("query", "evidence")]
+    exp = []
+    nchoices = 0
+    for sub in case["subs"]:
+        refprog = base + [["query", sub["goal"], False]] + [["evidence", a, v, 0] for a, v in sub["evidence"]]
+        try:
+            ref = sem.evaluate(refprog, max_choices=9, max_worlds=1 << 12)
+        except sem.TooLarge:
+            return Outcome(inconclusive="oversize", features=feats)
+        if ref.inconsistent:
+            return Outcome(nontrivial=False, features=sorted(feats) + ["seq:inconsistent-evidence-skipped"])
+        nchoices = max(nchoices, ref.n_choices)
+        v = ref.probs.get(sem.render_atom(sub["goal"]))
+        exp.append(0.0 if v is None else float(v))
+    bodies = []
+    for i, sub in enumerate(case["subs"]):
+        g = sem.render_atom(sub["goal"])
+        if sub["evidence"] or sub["use3"]:
+            ev = "[%s]" % ",".join(("" if v else "\\+") + sem.render_atom(a) for a, v in sub["evidence"])
+            bodies.append("subquery(%s,P%d,%s)" % (g, i, ev))
+        else:
+            bodies.append("subquery(%s,P%d)" % (g, i))
+    n = len(bodies)
+    if case["same_body"]:
+        src = sem.render_program(base) + "wb(%s) :- %s.\nquery(wb(%s)).\n" % (
+            ",".join("P%d" % i for i in range(n)), ", ".join(bodies), ",".join(["_"] * n))
+    else:
+        src = sem.render_program(base) + "".join("w%d(P%d) :- %s.\n" % (i, i, b) for i, b in enumerate(bodies)) + \
+            "".join("query(w%d(_)).\n" % i for i in case["order"])
+    res = plrun.run_problog(src)
+    if res[0] == "resource":
+        return Outcome(inconclusive=res[1], features=feats)
+    failure = None
+    if res[0] == "crash":
+        failure = Failure("crash", res[1], sig=res[1])
+    elif res[0] == "error":
+        # the single-wrapper sub-check relates errors to top-level inference; here only answered programs are compared
+        return Outcome(nontrivial=False, features=sorted(feats) + ["seq:error-skipped"], classes=["error:" + res[1]])
+    else:
+        answers = {}
+        for k, v in res[1].items():
+            if abs(float(v)) <= 1e-12 or "(" not in k:
+                continue
+            name = k[:k.index("(")]
+            args = _split_args(k[k.index("(") + 1:-1])
+            try:
+                vals = [float(x) for x in args]
+            except ValueError:
+                continue
+            if not plrun.close(float(v), 1.0):
+                failure = Failure("answer-not-certain", "%s has probability %r (the wrappers are deterministic)\n%s" % (k, v, src))
+                break
+            answers.setdefault(name, []).append(vals)
+        if failure is None:
+            if case["same_body"]:
+                got = answers.get("wb", [])
+                if all(e > 1e-9 for e in exp):
+                    if len(got) != 1:
+                        failure = Failure("seq-answers", "wb has answers %r, expected one: %r\n%s" % (got, exp, src))
+                    elif not all(plrun.close(g, e, tol_abs=1e-9) for g, e in zip(got[0], exp)):
+                        failure = Failure("seq-prob-mismatch", "wb answered %r, reference %r\n%s" % (got[0], exp, src))
+            else:
+                for i, e in enumerate(exp):
+                    got = answers.get("w%d" % i, [])
+                    if len(got) > 1:
+                        failure = Failure("seq-answers", "w%d has answers %r\n%s" % (i, got, src))
+                        break
+                    if not got:
+                        if e > 1e-9:
+                            failure = Failure("seq-answers", "w%d has no answer, reference %r\n%s" % (i, e, src))
+                            break
+                        continue
+                    if not plrun.close(got[0][0], e, tol_abs=1e-9):
+                        failure = Failure("seq-prob-mismatch", "w%d answered %r, reference %r (expected %r, order %r)\n%s" % (
+                            i, got[0][0], e, exp, case["order"], src))
+                        break
+    with3 = [i for i, sub in enumerate(case["subs"]) if sub["evidence"]]
+    nontrivial = nchoices >= 2 and bool(with3) and len(with3) < len(case["subs"]) and any(0 < e < 1 for e in exp)
+    return Outcome(nontrivial=nontrivial, features=sorted(feats) + ["seq:same-body" if case["same_body"] else "seq:wrappers"],
+                   failure=failure, classes=[res[0]], sample={"program": src})
+
+
+@st.composite
+def _seq_cases(draw):
+    prog = draw(gp.programs(min_queries=1, allow_neg_query=False, allow_nonground_query=False,
+                            evidence_bias=draw(st.booleans())))
+    base = [s for s in prog if s[0] not in ("query", "evidence")]
+    goals = [s[1] for s in prog if s[0] == "query"]
+    es = [[s[1], s[2]] for s in prog if s[0] == "evidence"]
+    # more ground atoms over the program's predicates, as goals and as evidence
+    preds = sorted(set((s[1][0], len(s[1][1])) for s in base if s[0] in ("fact", "rule", "rule_or")) |
+                   set((s[2][0], len(s[2][1])) for s in base if s[0] == "pfact") |
+                   set((a[0], len(a[1])) for s in base if s[0] == "ad" for _, a in s[1]))
+    for _ in range(draw(st.integers(1, 3))):
+        p = draw(st.sampled_from(preds))
+        atom = [p[0], [["a", draw(st.sampled_from(["a", "b"]))] for _ in range(p[1])]]
+        if draw(st.booleans()):
+            goals.append(atom)
+        else:
+            es.append([atom, draw(st.booleans())])
+    n = draw(st.integers(2, 4))
+    subs = []
+    for i in range(n):
+        g = draw(st.sampled_from(goals))
+        ev = []
+        if es and draw(st.booleans()):
+            ev = [e for e in es if draw(st.booleans())] or [draw(st.sampled_from(es))]
+        subs.append({"goal": g, "evidence": ev, "use3": bool(ev) or draw(st.integers(0, 3)) == 0})
+    order = list(draw(st.permutations(list(range(n)))))
+    order += [draw(st.sampled_from(order)) for _ in range(draw(st.integers(0, 2)))]
+    return {"prog": prog, "subs": subs, "order": order, "same_body": draw(st.integers(0, 2)) == 0}
+
+
 KNOWN_CLASSES = {
     "cyclic_or_complement": lambda case, failure: gp.cyclic_body_disjunction_with_complement(case["prog"]),
     "negcycle_fp": lambda case, failure: gp.neg_on_cyclic_goal_under_active_cycle(case["prog"]),
@@ -155,5 +281,7 @@ KNOWN_CLASSES = {
 
 SUBCHECKS = [
     SubCheck("wrapper", check, strategy=_cases, budget={"quick": 600, "thorough": 8000},
+             timeout={"quick": 15, "thorough": 60}),
+    SubCheck("sequence", check_seq, strategy=_seq_cases, budget={"quick": 500, "thorough": 6000},
              timeout={"quick": 15, "thorough": 60}),
 ]
